@@ -114,13 +114,64 @@ def private_callee(ctx, cls, callers, pick=None):
             if isinstance(n, _ast.Call):
                 d = _dotted(n.func) or ''
                 if d.startswith('self._') and not d.startswith('self.__'):
-                    g = ci.methods.get(d[5:])
+                    g = ci.methods.get(d[5:]) or ctx.prog.lookup(cls, d[5:])
                     if g is not None and not g.is_property and (pick is None or pick(g)):
                         counts[g.name] = counts.get(g.name, 0) + 1
     if not counts:
         from .model import AnalysisError
         raise AnalysisError('anchor vanished: no private helper of %s is called by %s' % (cls, '/'.join(callers)))
-    return ci.methods[max(counts, key=counts.get)]
+    best = max(counts, key=counts.get)
+    return ci.methods.get(best) or ctx.prog.lookup(cls, best)
+
+
+KNOWN_DECORATORS = {'property', 'staticmethod', 'classmethod', 'contextmanager', 'cl.contextmanager',
+                    'contextlib.contextmanager', 'wraps', 'ft.wraps', 'functools.wraps'}
+
+
+def unmodelled_constructs(ctx):
+    """Constructs of the analysed tree that lie outside the subset the interpreter models.  The released code has
+    none of them.  When they are present a failed obligation is not reported as a violation: the run ends as
+    ANALYSIS-ERROR (exit 2, "cannot vouch for this tree"), naming the constructs."""
+    import ast as _ast
+    from .model import dotted as _dotted
+    cached = ctx.__dict__.get('_unmodelled')
+    if cached is not None:
+        return cached
+    out = []
+    for mname, mi in sorted(ctx.prog.modules.items()):
+        for n in _ast.walk(mi.tree):
+            if isinstance(n, _ast.Call) and (_dotted(n.func) or '').split('.')[-1] in ('namedtuple', 'make_dataclass'):
+                out.append('%s:%d namedtuple type (rows/values carried by field name are not modelled)' % (mname, n.lineno))
+            if isinstance(n, _ast.ClassDef):
+                if any((_dotted(b) or '').split('.')[-1] == 'NamedTuple' for b in n.bases) or any(
+                        (_dotted(d) or (_dotted(d.func) if isinstance(d, _ast.Call) else '') or '').split('.')[-1] == 'dataclass'
+                        for d in n.decorator_list):
+                    out.append('%s:%d class %s is a NamedTuple/dataclass' % (mname, n.lineno, n.name))
+                if mname == 'core' and n.name.startswith('_'):
+                    out.append('%s:%d private class %s in core (objects that carry the statement executor or rows '
+                               'are not modelled)' % (mname, n.lineno, n.name))
+            if isinstance(n, (_ast.FunctionDef, _ast.AsyncFunctionDef)):
+                for d in n.decorator_list:
+                    name = _dotted(d) or (_dotted(d.func) if isinstance(d, _ast.Call) else '') or ''
+                    if name and name not in KNOWN_DECORATORS and not name.endswith('.setter') and not name.endswith('.getter') \
+                            and name.split('.')[-1] not in ('wraps', 'contextmanager', 'lru_cache', 'cache', 'cached_property',
+                                                            'total_ordering', 'abstractmethod'):
+                        out.append('%s:%d decorator @%s on %s (wrapped functions are not modelled)' % (
+                            mname, n.lineno, name, n.name))
+    # statements whose text the abstract evaluation could not determine
+    try:
+        from .rules_lock import core_entries, _forwarder
+        for f in core_entries(ctx):
+            for p in ctx.paths(f, 'default'):
+                for ev in p.trace:
+                    if ev.kind == 'SQL' and ev.d.get('stmt') is None and not _forwarder(ev, ctx):
+                        s = '%s SQL statement of unknown text in %s' % (ev.loc(), ev.fn.qual)
+                        if s not in out:
+                            out.append(s)
+    except Exception as e:       # the scan itself must never hide a verdict
+        out.append('resolution scan failed: %s' % e)
+    ctx.__dict__['_unmodelled'] = out
+    return out
 
 
 def fmt_trace(trace, limit=40):
